@@ -149,6 +149,8 @@ class World(object):
     def __init__(self, init, seed=0, salt=0):
         self.voc = Vocab(seed, salt)
         self.voc_seed = seed
+        self.init = init
+        self.hist_so_far = []
         self.salt = salt
         self.h = {}        # handle -> container
         self.handed = []   # (scope, printed form, uri segs)
@@ -416,6 +418,20 @@ class World(object):
                 self.rt = roundtrip.run_rt(doc, a["fmt"], a["opts"], self.voc)
                 return none
             return run
+        if op == "Export":
+            import exports
+            doc = self.h[a["h"]]
+            hist = self.hist_so_far[:]
+
+            def run():
+                twin_world = World(self.init, self.voc_seed, self.salt)
+                for b in hist:
+                    try:
+                        twin_world.prepare(b)()
+                    except Exception:
+                        pass
+                return exports.run_exports(doc, twin_world.h[a["h"]], a["seq"])
+            return run
         if op == "IO":
             import iokinds
             doc = sample_doc(Vocab(self.voc_seed, a["variant"]), a["variant"])
@@ -546,6 +562,9 @@ class World(object):
     def call(self, a):
         return self.prepare(a)()
 
+    def note(self, a):
+        self.hist_so_far.append(a)
+
     def step(self, a, want_pre):
         pre = self.observe() if want_pre else None
         exc = "none"
@@ -582,4 +601,5 @@ def run_behaviour(tid, init, hist, frm, seed=0):
                 pass
         else:
             steps.append(w.step(a, True))
+        w.note(a)
     return {"tid": tid, "init": init, "hist": hist, "from": frm, "steps": steps}
